@@ -545,7 +545,8 @@ def directed_shapes():
         def build(g):
             f = F(g.fresh("f"), inner())
             f.default = default
-            return ObjectT("dataclass", g.fresh("D"), [F(g.fresh("f"), Prim("int")), f])
+            fields = [F(g.fresh("f"), Prim("int")), f]
+            return ObjectT("dataclass", g.fresh("D"), fields if default is not None else fields[::-1][::-1])
         return build
 
     out = []
@@ -580,6 +581,11 @@ def directed_shapes():
         return o
 
     out.append(("dependent-required-twice", dep_req_twice))
+    tup = lambda: Tup([Prim("int"), Prim("str")])  # noqa: E731
+    out.append(("list-of-fixed-tuples", lambda g: Coll("list", tup())))
+    out.append(("dict-of-fixed-tuples", lambda g: MapT("dict", Prim("str"), tup())))
+    out.append(("list-of-tuple-or-str", lambda g: Coll("list", Union_([tup(), Prim("str")]))))
+    out.append(("field-of-fixed-tuples", holder(lambda: Coll("list", tup()), default=None)))
     for vals in (["a"], [1], [True], ["a", "b"], [0, ""]):
         out.append((f"opt-literal:{vals!r}", lambda g, vals=vals: opt(Lit(list(vals)))))
         out.append((f"opt-literal-field:{vals!r}", holder(lambda vals=vals: opt(Lit(list(vals))))))
